@@ -18,7 +18,13 @@ Definition fixed_lex := {| fix_eof := true; fix_nul := true; fix_backtick := tru
 (* ---------------------------------------------------------------- reader.go *)
 Record reader := Rd { rest : list N; ungot : bool; cur : N; hist : list N }.
 
-Definition rd_new (s : list N) : reader := Rd s false 0 [].
+(* reader.New: a last line without terminator gets one (repaired code) *)
+Definition normalize_eof (s : list N) : list N :=
+  match s with
+  | [] => []
+  | _ => if last s 0 =? 10 then s else s ++ [10]
+  end.
+Definition rd_new (s : list N) : reader := Rd (normalize_eof s) false 0 [].
 
 Definition rd_read (r : reader) : N * reader :=
   if ungot r then (cur r, Rd (rest r) false (cur r) (hist r))
